@@ -15,7 +15,8 @@ theorem source_rules :
     Facts.C34.largestValidAsModelled = true ∧ Facts.C34.planAsModelled = true ∧
     Facts.C34.ctrCounterIsOffsetDiv16 = true ∧ Facts.C34.verifierComparesSHA256 = true ∧
     Facts.C34.rejectsLongPart = true ∧ Facts.C34.rejectsBeyondTail = true ∧
-    Facts.C34.rejectsTruncatedSplit = true ∧ Facts.C34.cursorAdvancesToWindowEnd = true := by decide
+    Facts.C34.rejectsTruncatedSplit = true ∧ Facts.C34.cursorAdvancesToWindowEnd = true ∧
+    Facts.C34.verifyCasesAsModelled = true ∧ Facts.C34.maxRetryAttempts = 20 := by decide
 
 /-- Every CDN request range of a plan is a valid aligned window (offset and limit divisible by 4 KiB,
 limit divides 1 MiB, the range does not cross a 1 MiB boundary), and the ranges exactly cover the
@@ -115,6 +116,28 @@ theorem inline_truncation_counterexample :
     let out := streamChunks (chunkCDN sha (fun _ _ => []) (fun _ d => d) look true 3) 4096 4 0
     out.err = none ∧ out.done = true ∧ out.data = [] ∧ out.data ≠ file := by
   decide
+
+/-- Token refresh and reupload are transparent: whatever `FILE_TOKEN_INVALID` / `cdnFileReuploadNeeded`
+events interrupt the requests of a chunk, as long as there are fewer of them than the attempts the
+`Chunk` loop has left (19 on a schema that still has to follow the redirect), the chunk is exactly the
+event-free one; and in no case — also when the attempts run out — is different data returned. -/
+theorem control_events_transparent (cdn : Nat → Nat → Bytes) (dec : Nat → Bytes → Bytes) (md : Bytes)
+    (offset limit : Int) (plan : List Range) (hp : buildPlan offset limit = .ok plan) (evs : List Ev)
+    (hnf : Ev.tokenInvalidFile ∉ evs) :
+    (controlCount evs < 19 → chunkFresh cdn dec md offset limit evs = chunkRaw cdn dec plan) ∧
+    (∀ d, chunkFresh cdn dec md offset limit evs = .ok d → chunkRaw cdn dec plan = .ok d) := by
+  have h19 : Facts.C34.maxRetryAttempts - 1 = 19 := by decide
+  constructor
+  · intro hc
+    simp only [chunkFresh, hp, h19]
+    exact chunkLoop_transparent cdn dec md plan 19 evs hnf hc
+  · intro d h
+    simp only [chunkFresh, hp, h19] at h
+    exact chunkLoop_sound cdn dec md plan 19 evs d hnf h
+
+/-- Non-vacuity: one reupload and one token refresh before the data is served. -/
+example : (match chunkFresh (fun _ _ => [7]) (fun _ d => d) [] 0 4096 [.reupload, .tokenInvalid] with
+    | .ok d => d == [7] | .error _ => false) = true := by decide
 
 /-- With the verifier queue (`WithVerify(true)`, master or CDN data source) every delivered block is one
 whose SHA-256 equals the hash the server provided for exactly the requested `(offset, limit)`; a block
